@@ -1157,8 +1157,12 @@ pub enum Disp {
     BatchHalf,
     /// collect two deliveries, accept the newer one, then the older one
     PairsReversed,
+    /// collect two deliveries, then accept_all (for n >= 5 every batch is smaller than half the window)
+    BatchTwo,
+    /// collect max(2, n/3) deliveries, then accept_all
+    BatchThird,
 }
-pub const DISPS: [Disp; 5] = [Disp::Each, Disp::EachDisposer, Disp::BatchFull, Disp::BatchHalf, Disp::PairsReversed];
+pub const DISPS: [Disp; 7] = [Disp::Each, Disp::EachDisposer, Disp::BatchFull, Disp::BatchHalf, Disp::PairsReversed, Disp::BatchTwo, Disp::BatchThird];
 
 #[derive(Debug, Clone, Copy, PartialEq, Eq, Hash)]
 pub enum SenderStyle {
@@ -1205,7 +1209,8 @@ pub async fn stream(cfg: Cfg, disp: Disp, style: SenderStyle, total: usize) -> S
         Disp::Each | Disp::EachDisposer => 1,
         Disp::BatchFull => n as usize,
         Disp::BatchHalf => (n as usize).div_ceil(2),
-        Disp::PairsReversed => 2,
+        Disp::PairsReversed | Disp::BatchTwo => 2,
+        Disp::BatchThird => (n as usize / 3).max(2),
     }
     .max(1);
     let (frames, settled) = match style {
@@ -1324,7 +1329,7 @@ async fn dispose(h: &mut Harness, disp: Disp) {
                 h.quiesce(Cause::Grant).await;
             }
         }
-        Disp::BatchFull | Disp::BatchHalf => {
+        Disp::BatchFull | Disp::BatchHalf | Disp::BatchTwo | Disp::BatchThird => {
             if n == 1 {
                 h.accept_infos(vec![0], "one").await;
             } else {
@@ -1445,7 +1450,7 @@ pub fn run(ctx: &Ctx) -> Outcome {
     // ---------------------------------------------------------------- stage 2 first (cheap, fixed size)
     let mut items = vec![];
     for side in [Side::Client, Side::Listener] {
-        for n in [1u32, 2, 3, 10] {
+        for n in [1u32, 2, 3, 6, 10] {
             for idc in [5u32, u32::MAX - 3] {
                 if side == Side::Listener && idc != 5 {
                     continue;
